@@ -96,7 +96,7 @@ func cwAnalyse(shared [32]byte, captured []byte, payloads map[byte][]byte) (ctrs
 		// find under which counter (0..N) this frame opens
 		pos := len(captured) - rd.Len()
 		opened := false
-		for c := uint64(0); c < 64; c++ {
+		for c := uint64(0); c < 160; c++ {
 			s.ReadCtr = c
 			r2 := bytes.NewReader(captured[pos:])
 			p, err := s.OpenFrame(r2)
@@ -185,7 +185,11 @@ func runSchedule(b Beh, seed int64) (J, error) {
 		marker[w] = m
 		frames := 1
 		if w == "w1" {
-			frames = 2
+			// "several frames": two, or many (a response of some 50 KB: whatever the size, it is one critical section)
+			frames = b.Big
+			if frames < 2 {
+				frames = 2
+			}
 		}
 		payloads[m] = cwPayload(m, frames)
 	}
@@ -237,9 +241,15 @@ func runSchedule(b Beh, seed int64) (J, error) {
 		writeRel[w] = a.release
 	}
 	realised := true
-	for _, s := range steps {
+	entered := map[string]bool{}
+	for si, s := range steps {
 		switch s.A {
 		case "Begin":
+			if entered[s.W] {
+				// the writer enters again on its own (a payload written in several critical sections has no gate there)
+				continue
+			}
+			entered[s.W] = true
 			close(enterRel[s.W])
 			// the writer now seals; it reaches the write gate unless a lock held by a parked writer stops it
 			deadline := time.After(patience)
@@ -262,12 +272,22 @@ func runSchedule(b Beh, seed int64) (J, error) {
 			}
 			close(rel)
 			delete(writeRel, s.W)
-			// let this writer complete (further gate arrivals of it pass), park others that get going meanwhile
+			// let this writer complete (further gate arrivals of it pass - unless the word goes on with another section of
+			// its payload), park others that get going meanwhile
+			auto := s.W
+			for _, later := range steps[si+1:] {
+				if later.A == "SockWrite" && later.W == s.W {
+					auto = "-"
+				}
+			}
 			deadline := time.After(4 * patience)
 			for !isDone(s.W) {
 				select {
 				case a := <-g.arrivals:
-					park(a, s.W)
+					park(a, auto)
+					if auto == "-" && byGid[a.gid] == s.W {
+						goto next
+					}
 				case <-done[s.W]:
 				case <-deadline:
 					goto next
@@ -307,7 +327,7 @@ func runSchedule(b Beh, seed int64) (J, error) {
 		ctrs = append(ctrs, -1) // writers that never finish do not deliver their payload
 		intact = false
 	}
-	return J{"ev": "sched", "case": b.ID, "i": len(steps) - 1, "order": order, "realised": realised, "stuck": stuck, "ctrs": ctrs, "owners": owners, "intact": intact, "races": 0}, nil
+	return J{"ev": "sched", "case": b.ID, "i": len(steps) - 1, "order": order, "big": b.Big, "realised": realised, "stuck": stuck, "ctrs": ctrs, "owners": owners, "intact": intact, "races": 0}, nil
 }
 
 // stress: ungated concurrent writers (response, notifications, keep-alive sized payloads); the -race build reports data races.
@@ -327,7 +347,11 @@ func runStress(id int, seed int64, writers, rounds int) J {
 	m := byte(1)
 	for w := 0; w < writers; w++ {
 		for r := 0; r < rounds; r++ {
-			p := cwPayload(m, 1+int(m)%3)
+			fr := 1 + int(m)%3
+			if id%3 == 2 && w == 0 {
+				fr = 20 + 15*r // 20, 35, 50, ... frames: larger than any piece a chunked writer might choose
+			}
+			p := cwPayload(m, fr)
 			payloads[m] = p
 			m++
 		}
